@@ -2,6 +2,7 @@ import IceProofs.CandTextParseWF
 import IceProofs.AttrCodec
 import IceSpec.C16
 import IceTie.CandEqual
+import IceTie.Addr
 /-!
 # C16 — candidate and attribute wire formats round-trip; equality is lawful
 
@@ -476,5 +477,23 @@ example : IceGen.canonicalAddr (Bool × Bool × Nat) (fun a => (false, a.2)) (fu
       (true, false, 7) = (false, false, 0) ∧
     IceGen.canonicalAddr (Bool × Bool × Nat) (fun a => (false, a.2)) (fun a => a.2.1) (fun a => (a.1, a.2.1, 0))
       (false, true, 7) = (false, true, 7) := by decide
+
+/-- `addrEqual` and `createAddr` (addr.go, regenerated): `addrEqual` is false when either address does not parse, else it
+compares network type, IP (`Compare`) and port — on two resolved addresses of the text model that is the equality of the
+`resolved` tuples the model's `transportAddressEqual` uses; `createAddr` builds a `*net.TCPAddr` for the TCP network types and a
+`*net.UDPAddr` otherwise, both with IP, port and zone -/
+theorem C16_code_addrEqual :
+    (∀ (aErr bErr : Bool) (aType bType ipCompare aPort bPort : Int64),
+      IceGen.addrEqual aErr bErr aType bType ipCompare aPort bPort
+        = (!aErr && !bErr && aType == bType && ipCompare == 0 && aPort == bPort)) ∧
+    (∀ (a b : Bool × AddrClass × Option Str × Nat) (cmp : Int64),
+      (cmp == 0) = (a.2.1 == b.2.1 && a.2.2.1 == b.2.2.1) → a.2.2.2 < 2 ^ 63 → b.2.2.2 < 2 ^ 63 →
+      IceGen.addrEqual false false (IceTie.Addr.typeCode a.1 a.2.1) (IceTie.Addr.typeCode b.1 b.2.1) cmp
+          (Int64.ofNat a.2.2.2) (Int64.ofNat b.2.2.2) = (a == b)) ∧
+    (∀ isTCP, IceGen.createAddr isTCP = if isTCP then "TCPAddr{ip, port, zone}" else "UDPAddr{ip, port, zone}") :=
+  ⟨IceTie.Addr.addrEqual_tie, IceTie.Addr.addrEqual_resolved, IceTie.Addr.createAddr_tie⟩
+
+example : IceGen.addrEqual false false 1 1 0 5 5 = true ∧ IceGen.addrEqual false false 1 3 0 5 5 = false ∧
+    IceGen.addrEqual true false 1 1 0 5 5 = false := by decide
 
 end IceProps.C16
